@@ -27,6 +27,12 @@ Doublings(s) == {SubSeq(s, 1, i) \o SubSeq(s, i, Len(s)) : i \in Chars(s)}
 Swaps(s)     == {SubSeq(s, 1, i - 1) \o SubSeq(s, i + 1, i + 1) \o SubSeq(s, i, i) \o SubSeq(s, i + 2, Len(s)) : i \in 1..(Len(s) - 1)}
 Mutations == UNION {PrefixesOf(s) \cup Deletions(s) \cup Doublings(s) \cup Swaps(s) : s \in Bases}
 
-ASSUME ndJsonSerialize(IOEnv.OUT, SetToSeq({[text |-> t] : t \in Numeric \cup Mutations}))
+\* every range slot of the grammar written backwards (end before start): where the parser accepts it, the range is empty or
+\* wraps, and printing / normalising / evaluating what was built must still return. Always asked, whatever the sampling.
+Reversed == {"Mo[3-1]", "Fr[5-2] 10:00-12:00", "Mo[5-1] +1 day", "Su[4-2],Mo[2-1] 08:00-09:00", "Sa[5-4],Sa[1]", "week 30-10/7", "week 53-01",
+             "2030-2020/2", "2030-2020", "Jan 20-10", "Dec 31-01", "Dec-Jan", "Fr-Mo", "18:00-10:00/30", "10:30-10:15", "24:00-00:00",
+             "(sunset+01:00)-(sunrise-01:00)", "Jun 10-Jun 5", "2024 Jun 10-2023 Jun 5", "easter +5 days-easter -5 days",
+             "Jun 10+Mo-Jun 5-Su", "2025Dec-Jan", "9999-1900", "week 2-1", "Su-Su", "Feb 30-Feb 1", "48:00-00:00", "Mo[1-1]", "Mo[5-5],Mo[-1]"}
+ASSUME ndJsonSerialize(IOEnv.OUT, SetToSeq({[text |-> t, always |-> FALSE] : t \in Numeric \cup Mutations} \cup {[text |-> t, always |-> TRUE] : t \in Reversed}))
 ASSUME PrintT(<<"COUNTS", Cardinality(Numeric), Cardinality(Mutations)>>)
 =============================================================================
